@@ -1,9 +1,10 @@
-import SqlProofs.DelimR.Ops
+import SqlProofs.DelimChild.Reindent.Ops
 /-!
-# SqlProofs.DelimR.Level — one level: `Ops` keeps the invariant of the children, and `Ops` + `PrefRel` keep the frame
+# SqlProofs.DelimChild.Reindent.Level — one level: `Ops` keeps the invariant of the children, and `Ops` + `PrefRel` keep the frame
 -/
 namespace Sql
-namespace DC
+namespace DCR
+open DC
 
 variable {u : Text → Text}
 
@@ -320,5 +321,5 @@ theorem frame_step (hu : DelimU u) {ph ph' : Ph} (hle : ph.le ph' = true) {al il
   subst hs
   exact (closerBad_stable hu hf.cd x _ hrel (lastNonWs_mem hx).2 (hf.last x hx)).2
 
-end DC
+end DCR
 end Sql
